@@ -2,6 +2,7 @@ package props
 
 import (
 	"fmt"
+	"strings"
 
 	"verifharness/internal/core"
 	"verifharness/internal/mt"
@@ -17,7 +18,7 @@ func init() {
 		rule: "case = extends chain t0<-t1<-...<-tn, for every (level, block) one of {absent, empty, text, text+parent(), parent() twice, variable print, loop}, a base layout (plain / nested blocks / block in for / block in if) and a parent-name form (static, variable, conditional); " +
 			"expected bytes from the reference interpreter. Non-trivial: chain length >= 3 (at least two overriding levels) or a parent() call. Distinct = distinct (templates, context).",
 		assumptions: []string{
-			"children define blocks only at top level and contain nothing but text outside blocks; no block() function; leaf rendered once on a fresh engine",
+			"children contain nothing but text outside blocks; a child may define block b inside its override of block a; no block() function; leaf rendered once on a fresh engine",
 			"the reference interpreter (internal/mt) is trusted to transcribe the statement",
 		},
 		quick: 60000, thorough: 1200000, minQuick: 5000, minThorough: 50000,
@@ -36,12 +37,15 @@ const (
 	bkParentFiltered
 	bkParentConcat
 	bkParentSet
+	// the override of block a carries this level's definition of block b inside it (and the level has no top-level b)
+	bkNestedDef
+	bkNestedDefParent
 )
 
 func c10Body(kind, level int, name string, hasLower bool, inRow bool) ([]mt.Stmt, bool) {
 	tag := fmt.Sprintf("L%d.%s", level, name)
 	par := mt.Stmt(mt.P(mt.Parent{}))
-	if !hasLower && (kind == bkTextParent || kind == bkParent || kind == bkParentTwice || kind >= bkParentFiltered) {
+	if !hasLower && (kind == bkTextParent || kind == bkParent || kind == bkParentTwice || (kind >= bkParentFiltered && kind < bkNestedDef)) {
 		kind = bkText
 	}
 	switch kind {
@@ -70,6 +74,17 @@ func c10Body(kind, level int, name string, hasLower bool, inRow bool) ([]mt.Stmt
 		return []mt.Stmt{mt.Set{Name: "pp", E: mt.Parent{}}, mt.T(tag + "["), mt.P(mt.V("pp")), mt.P(mt.Filt{E: mt.V("pp"), Name: "length"}), mt.T("]")}, true
 	case bkLoop:
 		return []mt.Stmt{mt.For{Val: "x", Seq: mt.V("xs"), Body: []mt.Stmt{mt.P(mt.V("x")), mt.T(tag)}}}, true
+	case bkNestedDef, bkNestedDefParent:
+		inner := []mt.Stmt{mt.T(fmt.Sprintf("N%d.b", level))}
+		out := []mt.Stmt{mt.T(tag + "⟦")}
+		if kind == bkNestedDefParent {
+			inner = append(inner, mt.T("+"), par)
+		}
+		out = append(out, mt.Block{Name: "b", Body: inner}, mt.T("⟧"))
+		if kind == bkNestedDefParent && hasLower {
+			out = append(out, par)
+		}
+		return out, true
 	}
 	return nil, false
 }
@@ -122,6 +137,15 @@ func (p *c10) build(levels int, kinds [][]int, layout int, nameForm int, flag bo
 		}
 		for bi, n := range names {
 			k := kinds[lv-1][bi]
+			if n == "a" && k >= bkNestedDef && inRowLayout(layout) {
+				k = bkText // a block defined inside a loop body of the base is left to the plain kinds
+			}
+			if n == "b" && (kinds[lv-1][0] >= bkNestedDef && !inRowLayout(layout)) {
+				continue // this level defines b inside its override of a
+			}
+			if n == "b" && k >= bkNestedDef {
+				k = bkTextParent
+			}
 			if k == bkTextParent || k == bkParent || k == bkParentTwice || k >= bkParentFiltered {
 				usesParent = true
 			}
@@ -137,10 +161,42 @@ func (p *c10) build(levels int, kinds [][]int, layout int, nameForm int, flag bo
 	return set, fmt.Sprintf("t%d", levels-1), ctx, usesParent
 }
 
-func (p *c10) check(rec *core.Recorder, class string, set *mt.TmplSet, main string, ctx map[string]mt.Val, nontrivial bool) {
+func inRowLayout(layout int) bool { return layout == 2 }
+
+// c10Ladder renames the chain t0 <- t1 <- ... into a directory ladder in which every level is called layout.twig and
+// extends '../layout.twig': the same written name at every level, resolved against the template that contains the tag.
+func c10Ladder(srcs map[string]string, levels int) (map[string]string, string) {
+	path := func(lv int) string {
+		p := ""
+		for i := 1; i <= lv; i++ {
+			p += fmt.Sprintf("d%d/", i)
+		}
+		return p + "layout.twig"
+	}
+	out := map[string]string{}
+	for lv := 0; lv < levels; lv++ {
+		src := srcs[fmt.Sprintf("t%d", lv)]
+		if lv > 0 {
+			old := fmt.Sprintf("'t%d'", lv-1)
+			if !strings.Contains(src, old) {
+				return srcs, fmt.Sprintf("t%d", levels-1)
+			}
+			src = strings.Replace(src, old, "'../layout.twig'", 1)
+		}
+		out[path(lv)] = src
+	}
+	return out, path(levels - 1)
+}
+
+func (p *c10) check(rec *core.Recorder, class string, set *mt.TmplSet, main string, ctx map[string]mt.Val, nontrivial bool, ladder ...int) {
 	in := mt.NewInterp(set)
 	want, werr := in.Render(main, ctx)
-	srcs := maybeLarge(rec, (&mt.Printer{}).SourceSet(set))
+	srcs := (&mt.Printer{}).SourceSet(set)
+	if len(ladder) == 1 {
+		srcs, main = c10Ladder(srcs, ladder[0])
+		rec.Count("relative-name-ladders", 1)
+	}
+	srcs = maybeLarge(rec, srcs)
 	canon := canonSrcs(srcs) + canonCtx(ctx)
 	if werr != nil {
 		rec.Count("skipped-referr", 1)
@@ -206,8 +262,13 @@ func (p *c10) Run(rec *core.Recorder, seed uint64, idx int, tier string) {
 	levels := r.Range(2, 6)
 	kinds := make([][]int, levels-1)
 	for lv := range kinds {
-		kinds[lv] = []int{r.Intn(11), r.Intn(11)}
+		kinds[lv] = []int{r.Intn(13), r.Intn(11)}
 	}
-	set, main, ctx, up := p.build(levels, kinds, r.Intn(4), r.Intn(3), r.Bool())
+	nameForm := r.Intn(3)
+	set, main, ctx, up := p.build(levels, kinds, r.Intn(4), nameForm, r.Bool())
+	if nameForm == 0 && r.P(1, 3) {
+		p.check(rec, "random", set, main, ctx, levels >= 3 || up, levels)
+		return
+	}
 	p.check(rec, "random", set, main, ctx, levels >= 3 || up)
 }
